@@ -12,11 +12,14 @@ From Gv Require Import lib.Bytes lib.Json lib.Gql lib.Exec
      C01.ProofsTvStatic C01.ProofsTvDefs C01.ProofsTvHidden C01.ProofsPlanGen C01.ProofsPlan2 C01.ProofsFuelSuff.
 Open Scope N_scope.
 
+Notation fetch3 := (list (nat * list name) * nat * list name)%type.
 Inductive pitem :=
 | PKeep (s : selection)
 | PDown (a : option name) (n : name) (args : list argument) (sh : fshape) (T : name) (sub : ptree)
 with ptree :=
-| PT (items : list (nat * pitem)) (fetches : list (nat * nat * list name)).   (* fetch: (source whose members carry the keys, subgraph, representation fields) *)
+| PT (items : list (nat * pitem)) (fetches : list (list (nat * list name) * nat * list name)).
+(* fetch: (deps, subgraph, representation fields); deps = [(source, the representation fields that source is asked for); ..]:
+   an entity fetch may read its representation off several earlier sources (key from one, @requires inputs from another) *)
 
 Definition pt_items (pt : ptree) := match pt with PT items _ => items end.
 Definition pt_fetches (pt : ptree) := match pt with PT _ fetches => fetches end.
@@ -36,10 +39,13 @@ with pt_client (pt : ptree) : list selection :=
   end.
 
 (* the key selections source [t] is asked for: those of the fetches that read their representation off it *)
-Definition keys_from (t : nat) (fetches : list (nat * nat * list name)) : list selection :=
-  match filter (fun f => Nat.eqb (fst (fst f)) t) fetches with
+Definition deps_on (t : nat) (f : fetch3) : bool := existsb (fun d : nat * list name => Nat.eqb (fst d) t) (fst (fst f)).
+Definition keys_of (t : nat) (f : fetch3) : list name :=
+  flat_map snd (filter (fun d : nat * list name => Nat.eqb (fst d) t) (fst (fst f))).
+Definition keys_from (t : nat) (fetches : list (fetch3)) : list selection :=
+  match filter (deps_on t) fetches with
   | [] => []
-  | fs => key_sels (flat_map snd fs)
+  | fs => key_sels (flat_map (keys_of t) fs)
   end.
 
 (* what the source that produced the object is asked for at a position *)
@@ -56,7 +62,7 @@ with pt_proj (pt : ptree) : list selection :=
     ++ keys_from 0 fetches
   end.
 (* what the j-th entity fetch of the position is asked for (inside  ... on T { }) *)
-Definition src_proj (j : nat) (items : list (nat * pitem)) (fetches : list (nat * nat * list name)) : list selection :=
+Definition src_proj (j : nat) (items : list (nat * pitem)) (fetches : list (fetch3)) : list selection :=
   map (fun ti => item_proj (snd ti)) (filter (fun ti => Nat.eqb (fst ti) j) items) ++ keys_from j fetches.
 
 (* the planner's __typename is put in front of an entity selection that does not select __typename itself *)
@@ -84,7 +90,7 @@ Fixpoint item_reqs (vdsM : list vardef) (frags : list fragment) (tn : bool) (pat
 with pt_reqs (vdsM : list vardef) (frags : list fragment) (tn : bool) (path : list name) (T : name) (pt : ptree) : list mreq3 :=
   match pt with
   | PT items fetches =>
-    (fix gof (j : nat) (fs : list (nat * nat * list name)) : list mreq3 :=
+    (fix gof (j : nat) (fs : list (fetch3)) : list mreq3 :=
        match fs with
        | [] => []
        | (_, si, ks) :: r =>
@@ -96,6 +102,10 @@ with pt_reqs (vdsM : list vardef) (frags : list fragment) (tn : bool) (path : li
 Definition model_requests3 (vdsM : list vardef) (frags : list fragment) (tn : bool) (ds : list rfield3) : list mreq3 :=
   map (fun g => MRoot3 g (query_doc vdsM (map (fun d => item_proj (r3_item d)) (fields_of3 g ds)) frags)) (roots_of3 ds) ++
   flat_map (fun d => item_reqs vdsM frags tn [] (r3_item d)) ds.
+
+(* the requests that are SENT: the fields the gateway resolves itself (root [__typename], root index = number of subgraphs) need none *)
+Definition model_requests3s (nsubs : nat) (vdsM : list vardef) (frags : list fragment) (tn : bool) (ds : list rfield3) : list mreq3 :=
+  filter (fun r => match r with MRoot3 g _ => Nat.ltb g nsubs | MEntity3 _ _ _ _ => true end) (model_requests3 vdsM frags tn ds).
 
 Section Gw3.
   Variable U : universe.
@@ -127,16 +137,15 @@ Section Gw3.
 
   (* the sources of a position, in order: source 0 (given), then one per fetch; a fetch reads its representation off
      the object merged so far; a missing source (null entity, violation) makes the ones asked after it missing too *)
-  Fixpoint fetch_all (T : name) (items : list (nat * pitem)) (all : list (nat * nat * list name))
-           (srcs : list (option (list (bytes * json)))) (j : nat) (fs : list (nat * nat * list name))
+  Fixpoint fetch_all (T : name) (items : list (nat * pitem)) (all : list (fetch3))
+           (srcs : list (option (list (bytes * json)))) (j : nat) (fs : list (fetch3))
     : list (option (list (bytes * json))) * list xerr :=
     match fs with
     | [] => (srcs, [])
-    | (from, si, ks) :: r =>
-      let '(o, e) := match nth from srcs None with
-                     | Some _ => fetch_one T (src_proj j items all) (merged srcs) si ks
-                     | None => (None, [])
-                     end in
+    | (deps, si, ks) :: r =>
+      let '(o, e) := if forallb (fun d : nat * list name => negb (is_none (nth (fst d) srcs None))) deps
+                     then fetch_one T (src_proj j items all) (merged srcs) si ks
+                     else (None, []) in
       let '(os, es) := fetch_all T items all (srcs ++ [o]) (S j) r in
       (os, e ++ es)
     end.
@@ -216,7 +225,7 @@ End Gw3.
 
 (* ---- the universe-free validator of plan trees ---- *)
 Definition plain_field (s : selection) : bool := match s with SField _ _ _ [] _ => true | _ => false end.
-Definition fetch_keys (fetches : list (nat * nat * list name)) : list name := s_typename :: flat_map snd fetches.
+Definition fetch_keys (fetches : list (fetch3)) : list name := s_typename :: flat_map snd fetches.
 (* a client field whose response key is the name of a representation field is that very field *)
 Definition item_unaliased (K : list name) (it : pitem) : bool :=
   negb (mem_bytes (item_key it) K) ||
@@ -225,7 +234,7 @@ Definition item_unaliased (K : list name) (it : pitem) : bool :=
   | _ => false
   end.
 (* the subgraph (index) that answers for source [t] of a position whose own source is [cur] *)
-Definition src_sub (cur : nat) (fetches : list (nat * nat * list name)) (t : nat) : nat :=
+Definition src_sub (cur : nat) (fetches : list (fetch3)) (t : nat) : nat :=
   match t with O => cur | S j => match nth_error fetches j with Some (_, si, _) => si | None => cur end end.
 
 Section Static3.
@@ -247,12 +256,13 @@ Section Static3.
     | None => false
     end.
 
-  Fixpoint fetches_static_b (T : name) (items : list (nat * pitem)) (all : list (nat * nat * list name))
-           (j : nat) (fs : list (nat * nat * list name)) : bool :=
+  Fixpoint fetches_static_b (T : name) (items : list (nat * pitem)) (all : list (fetch3))
+           (j : nat) (fs : list (fetch3)) : bool :=
     match fs with
     | [] => true
-    | (from, si, ks) :: r =>
-      Nat.ltb from j && Nat.ltb si (length subs) &&
+    | (deps, si, ks) :: r =>
+      (negb (is_none (hd_error deps)) && forallb (fun d : nat * list name => Nat.ltb (fst d) j) deps &&
+       names_incl ks (flat_map snd deps) && names_incl (flat_map snd deps) ks) && Nat.ltb si (length subs) &&
       key_covered decls T ks && repr_fields_ok decls rdecls T ks &&
       sels_noent (src_proj j items all) &&
       req_ok_b (sub_at' si) frags vars not_repr kq T (src_proj j items all) &&
@@ -287,11 +297,17 @@ Section Static3.
       end
     end.
 
+  (* a root field is resolved by the root fetch of a subgraph, or -- [__typename] only -- by the gateway itself
+     ([r3_root] = the number of subgraphs: no request; the model evaluates it on the supergraph schema) *)
+  Definition is_typename_leaf (it : pitem) : bool :=
+    match it with PKeep (SField _ n [] [] []) => bytes_eqb n s_typename | _ => false end.
   Definition rfield3_static_b (k : nat) (d : rfield3) : bool :=
-    negb (bytes_eqb (match r3_item d with PKeep (SField _ n _ _ _) => n | PDown _ n _ _ _ _ => n | _ => [] end) s_typename) &&
-    Nat.ltb (r3_root d) (length subs) &&
+    (if is_typename_leaf (r3_item d) then Nat.eqb (r3_root d) (length subs)
+     else
+       negb (bytes_eqb (match r3_item d with PKeep (SField _ n _ _ _) => n | PDown _ n _ _ _ _ => n | _ => [] end) s_typename) &&
+       Nat.ltb (r3_root d) (length subs) &&
+       req_ok_b (sub_at' (r3_root d)) frags vars (fun _ => true) kq Q [item_proj (r3_item d)]) &&
     sels_noent [item_proj (r3_item d)] &&
-    req_ok_b (sub_at' (r3_root d)) frags vars (fun _ => true) kq Q [item_proj (r3_item d)] &&
     item_static_b k Q (r3_item d).
 
   (* THE VALIDATOR OF PLAN TREES *)
@@ -323,7 +339,8 @@ Definition ds_need (sc : schema) (ds : list rfield3) : nat :=
     (Nat.max (fuel_bound sc (map (fun d => item_client (r3_item d)) ds) + 10)
        (fold_right Nat.max O (map (fun d => item_need sc (r3_item d)) ds))).
 
-(* (U5') list-typed fields hold lists, in every entity *)
+(* list-typed fields hold lists, in every entity: NOT needed by the theorems (a list field holding null or a
+   non-list value is followed exactly, ProofsPlan3Field.list_value); kept as a statistic of the sampled universes *)
 Definition lists_ok_b (sc : schema) (U : universe) : bool :=
   forallb (fun e => match find_type (en_type e) (s_types sc) with
                     | Some td => forallb (fun fd => negb (is_list_ty (fd_type fd)) ||
@@ -332,7 +349,7 @@ Definition lists_ok_b (sc : schema) (U : universe) : bool :=
                     | None => true
                     end) U.
 Definition univ3_contract_b (sc : schema) (subs : list schema) (decls : list (name * list name)) (rdecls : list rdecl) (U : universe) : bool :=
-  univ_contract_b sc decls rdecls subs U && lists_ok_b sc U.
+  univ_contract_b sc decls rdecls subs U.
 
 (* ---- the statements of the induction over plan trees ---- *)
 Section Spec3.
